@@ -242,6 +242,9 @@ func main() {
 		if len(kvs) == 1 && len(kvs[0].K) == 0 {
 			desc["sig"] = "single-empty-key"
 		}
+		if len(kvs) == 1 && len(kvs[0].K) == 1 && kvs[0].K[0] == 0xff {
+			desc["sig"] = "lone-0xff-key"
+		}
 		idx := out.Case(desc, len(kvs) >= 3 && hasPrefixPair)
 		out.Count("trie")
 		out.Count(fmt.Sprintf("trie:keys:%02d-%02d", len(kvs)/10*10, len(kvs)/10*10+9))
